@@ -122,12 +122,36 @@ func (m *Map[K, V]) UnmarshalJSON(data []byte) error {
 		return err
 	}
 
+	// position of every member name in the document, in order of appearance
+	position := make(map[string]int)
+	dec := json.NewDecoder(bytes.NewReader(data))
+	if _, err = dec.Token(); err != nil { // opening brace
+		return err
+	}
+	for dec.More() {
+		name, err := dec.Token()
+		if err != nil {
+			return err
+		}
+		if s, ok := name.(string); ok {
+			position[s] = len(position)
+		}
+		var skip json.RawMessage
+		if err = dec.Decode(&skip); err != nil {
+			return err
+		}
+	}
+
 	index := make(map[K]int)
 	var keys []K
 	for key := range elements {
 		keys = append(keys, key)
 		esc, _ := json.Marshal(key)
-		index[key] = bytes.Index(data, esc)
+		var name string
+		if json.Unmarshal(esc, &name) != nil {
+			name = string(esc) // non-string keys are written as their JSON text
+		}
+		index[key] = position[name]
 	}
 
 	byIndex := func(a, b K) int {
